@@ -243,6 +243,13 @@ func (a *ctlFn) Evaluate(_ plugintypes.RuleMetadata, txS plugintypes.Transaction
 					Msg("Invalid limit")
 				return
 			}
+			if limit <= 0 || limit > tx.WAF.RequestBodyLimit {
+				tx.DebugLogger().Error().
+					Str("ctl", "RequestBodyLimit").
+					Str("value", a.value).
+					Msg("Limit out of range")
+				return
+			}
 			tx.RequestBodyLimit = limit
 		} else {
 			tx.DebugLogger().Warn().
@@ -335,6 +342,13 @@ func (a *ctlFn) Evaluate(_ plugintypes.RuleMetadata, txS plugintypes.Transaction
 					Str("value", a.value).
 					Err(err).
 					Msg("Invalid limit")
+				return
+			}
+			if limit <= 0 || limit > tx.WAF.ResponseBodyLimit {
+				tx.DebugLogger().Error().
+					Str("ctl", "ResponseBodyLimit").
+					Str("value", a.value).
+					Msg("Limit out of range")
 				return
 			}
 			tx.ResponseBodyLimit = limit
